@@ -133,7 +133,8 @@ def corruptions(idx, out):
                 c = fresh()
                 c.insert(nxt[0], ["R", c[nxt[0] - 1][1], v, "0", "sleep"])
                 yield "suspended actor %s returns from a call before being resumed" % v, join(c), "C11:suspended:ran"
-                if float(l[6]) > 0:
+                rem = [x for x in ls[i + 1:nxt[0]] if x[0] == "r" and x[2] == l[2] and x[3] == l[3]]
+                if rem and float(rem[0][6]) > 0:
                     c = fresh()
                     c[nxt[0]][6] = repr(float(c[nxt[0]][6]) - 1e8)
                     yield "exec of suspended actor %s progressed by 1e8 flops" % v, join(c), "C11:suspended:remaining-changed"
